@@ -25,9 +25,9 @@ class StubModelDL(Cacheable):
         self._table_strings = DataLists(self, "stringTable", "string")
 
 
-def h06a_lookup(k0, k1, k2, k3, n):
+def h06a_lookup(k0, k1, k2, k3, k4, n):
     """a lookup by key finds the entry carrying that key, wherever the entry sits in the list"""
-    keys = [k0, k1, k2, k3][:n]
+    keys = [k0, k1, k2, k3, k4][:n]
     for i in range(n):
         assume(keys[i] >= 1)
         for j in range(i):
@@ -156,8 +156,8 @@ def h06c_rows(has0, has1, has2, has3, hdr0, hdr1, hdr2, hdr3, split, wide, tile_
 
 
 HARNESSES = [
-    Harness("H06a", h06a_lookup, dict(k0=IntDom(), k1=IntDom(), k2=IntDom(), k3=IntDom(), n=Cases([1, 2, 3, 4])),
-            bounds="1..4 entries with symbolic pairwise-distinct positive keys in any order (unbounded Int)",
+    Harness("H06a", h06a_lookup, lambda tier: dict(k0=IntDom(), k1=IntDom(), k2=IntDom(), k3=IntDom(), k4=IntDom(), n=Cases([1, 2, 3, 4] if tier == "quick" else [1, 2, 3, 4, 5])),
+            bounds="1..4 (quick) / 1..5 (thorough) entries with symbolic pairwise-distinct positive keys in any order (unbounded Int)",
             stubs=["object store = dict of attribute bags; ListEntry constructor = attribute bag"],
             outside=["zip member order / compression method / package-folder form (zipfile and file-system I/O)",
                      "format / style / formula lookup lists share the same DataLists code; only the string list is driven"],
